@@ -196,10 +196,16 @@ func runSlots(c *Ctx) {
 				}
 			}
 			for _, x := range exprs {
-				vacant, left := false, false
+				vacant, left, stillFailed := false, false, false
 				for _, a := range Implied(x, true) {
 					if !a.Val {
 						continue
+					}
+					// the books still say what the leave wrote: the receiver has not been queued or started again since
+					if be, ok := ast.Unparen(a.E).(*ast.BinaryExpr); ok && be.Op == token.EQL && isField(fi, be.X, statusF) {
+						if o := ObjOf(fi, be.Y); o != nil && strings.HasSuffix(o.Name(), "StatusFailed") {
+							stillFailed = true
+						}
 					}
 					if be, ok := ast.Unparen(a.E).(*ast.BinaryExpr); ok && be.Op == token.EQL {
 						if ix, ok := ast.Unparen(be.X).(*ast.IndexExpr); ok && isField(fi, ix.X, active) {
@@ -212,7 +218,7 @@ func runSlots(c *Ctx) {
 						left = true
 					}
 				}
-				if vacant && left {
+				if vacant && left && stillFailed {
 					return true
 				}
 			}
